@@ -142,6 +142,7 @@ func c05Scenario(tail []string) *explore.Scenario {
 				return
 			}
 			if pilot {
+				vx.Observe("pilot", fmt.Sprintf("-1 %s", strings.Join(trackerVector(c.StateTracker()), " ;; ")))
 				for i, l := range lines {
 					vc.SendLines(l)
 					vx.Quiesce()
@@ -158,6 +159,7 @@ func c05Scenario(tail []string) *explore.Scenario {
 	sc.Main = mk(false)
 	var once sync.Once
 	var expected [][]string // expected[k] = vector after line k
+	var initial []string    // vector before the first line
 	sc.Check = func(o *vx.Outcome) []explore.Finding {
 		if fs := stdOutcome(o); fs != nil {
 			return fs
@@ -166,6 +168,10 @@ func c05Scenario(tail []string) *explore.Scenario {
 			po := RunSeq(vx.Options{}, mk(true))
 			for _, r := range po.Log("pilot") {
 				sp := strings.SplitN(r, " ", 2)
+				if sp[0] == "-1" {
+					initial = strings.Split(sp[1], " ;; ")
+					continue
+				}
 				expected = append(expected, strings.Split(sp[1], " ;; "))
 			}
 		})
@@ -197,6 +203,10 @@ func c05Scenario(tail []string) *explore.Scenario {
 				}
 			case "bg":
 				seenBG[k]++
+				// A background handler runs concurrently with the processing of later lines, so a
+				// query may show the state after its own line, after any later line, or a state in the
+				// middle of a later line's processing (built-in handlers update the tracker in several
+				// steps). What it must never show is a state from BEFORE its own line was applied.
 				for q := range v {
 					ok := false
 					for j := k; j < len(expected); j++ {
@@ -204,8 +214,22 @@ func c05Scenario(tail []string) *explore.Scenario {
 							ok = true
 						}
 					}
-					if !ok {
-						fs = append(fs, explore.Finding{Oracle: "background-handler-sees-stale-state", Msg: fmt.Sprintf("background handler of line %d (%s): query answered %q, which is not the state after line %d or any later line (expected %q)", k, lines[k], v[q], k, expected[k][q])})
+					if ok {
+						continue
+					}
+					stale := -2
+					for j := k - 1; j >= -1; j-- {
+						old := initial
+						if j >= 0 {
+							old = expected[j]
+						}
+						if v[q] == old[q] {
+							stale = j
+							break
+						}
+					}
+					if stale >= -1 {
+						fs = append(fs, explore.Finding{Oracle: "background-handler-sees-stale-state", Msg: fmt.Sprintf("background handler of line %d (%s): query answered %q, the state from before that line was applied (state after line %d; after line %d it is %q)", k, lines[k], v[q], stale, k, expected[k][q])})
 						break
 					}
 				}
